@@ -341,6 +341,19 @@ fn replay(run: &Run, doc: &Value) -> Option<Violation> {
                 judge4(run, &mut t, a, b, got, &ra, &rb, &aa, &ab);
             }
         }
+        Some("best") if c["pattern"] == "*" => {
+            let n1 = c["pkg1"].as_str().unwrap_or("");
+            let n2 = c["pkg2"].as_str().unwrap_or("");
+            let ver = |n: &str| n.rsplit_once('-').map(|x| x.1.to_string()).unwrap_or_default();
+            let (r1, r2) = (dewey::tokenise(&ver(n1), LetterWeight::Rank), dewey::tokenise(&ver(n2), LetterWeight::Rank));
+            let (a1, a2) = (dewey::tokenise(&ver(n1), LetterWeight::AsciiLower), dewey::tokenise(&ver(n2), LetterWeight::AsciiLower));
+            let want = best_expected(n1, n2, &r1, &r2);
+            let star = Pattern::new("*").unwrap();
+            let g = star.best_match(n1, n2).map(|s| s.to_string());
+            if g.as_deref() != Some(want) && !(g.as_deref() == Some(best_expected(n1, n2, &a1, &a2)) && run.finding_open(FINDING)) {
+                t.violation(Violation::new("best", c.clone(), json!(want), json!(g), "best_match does not return the candidate the dewey rule ranks highest"));
+            }
+        }
         Some("best") => {
             let n1 = c["pkg1"].as_str().unwrap_or("");
             let n2 = c["pkg2"].as_str().unwrap_or("");
@@ -631,6 +644,87 @@ fn main() {
             }
         }
     });
+    // (i) best_match between candidates whose bases differ (in length, in the number of '-'):
+    // only the versions decide, whatever stands before the last '-'
+    {
+        let bases = ["p", "pq", "p-q", "foo", "barbaz", "a-b-c", "x1", "lib-1"];
+        let vers: Vec<String> = token_strings(2);
+        let star = Pattern::new("*").unwrap_or_else(|e| run.fault(&format!("*: {}", e)));
+        let mut names: Vec<(String, usize)> = vec![];
+        for (vi, v) in vers.iter().enumerate() {
+            if !run.thorough() && vi % 3 != 0 {
+                continue;
+            }
+            for b in bases {
+                names.push((format!("{}-{}", b, v), vi));
+            }
+        }
+        let rank: Vec<Ver> = vers.iter().map(|v| dewey::tokenise(v, LetterWeight::Rank)).collect();
+        let ascii: Vec<Ver> = vers.iter().map(|v| dewey::tokenise(v, LetterWeight::AsciiLower)).collect();
+        run.bound(format!("(i) best_match across bases: {} names (8 bases of different lengths x versions of <= 2 tokens), all unordered pairs under '*'", names.len()));
+        let idx: Vec<usize> = (0..names.len()).collect();
+        par_items(&run, "C01(i) cross-base best_match", &idx, |_, i, t| {
+            for j in *i..names.len() {
+                let ((n1, v1), (n2, v2)) = (&names[*i], &names[j]);
+                t.states += 1;
+                t.transitions += 1;
+                t.evals += 1;
+                t.validated += 1;
+                let want = best_expected(n1, n2, &rank[*v1], &rank[*v2]);
+                match guard(|| star.best_match(n1, n2).map(|s| s.to_string())) {
+                    Ok(Some(g)) if g == want => {
+                        if v1 != v2 {
+                            t.nontrivial += 1;
+                        }
+                    }
+                    Ok(g) => {
+                        let variant = best_expected(n1, n2, &ascii[*v1], &ascii[*v2]);
+                        if g.as_deref() == Some(variant) && run.finding_open(FINDING) {
+                            t.known(FINDING, || json!({"pattern": "*", "pkg1": n1, "pkg2": n2}));
+                        } else {
+                            t.violation(Violation::new("best", json!({"pattern": "*", "pkg1": n1, "pkg2": n2}), json!(want), json!(g), "best_match does not return the candidate the dewey rule ranks highest"));
+                        }
+                    }
+                    Err(m) => t.violation(Violation::new("best", json!({"pattern": "*", "pkg1": n1, "pkg2": n2}), json!(want), json!(format!("panic: {}", m)), "best_match panicked")),
+                }
+            }
+            t.outcome("cross-base/row");
+        });
+    }
+    // (j) one name buffer rewritten in place between calls (same address, same length, other
+    // content), against patterns compiled once: the verdict depends on the content only
+    {
+        let mut t = Tally::new();
+        let vers: Vec<String> = token_strings(2);
+        let mut by_len: std::collections::BTreeMap<usize, Vec<&String>> = std::collections::BTreeMap::new();
+        for v in &vers {
+            by_len.entry(v.len()).or_default().push(v);
+        }
+        let mut calls = 0u64;
+        for bound in ["1.0", "1a", "2nb1"] {
+            let pats: Vec<Pattern> = OPS.iter().map(|op| Pattern::new(&format!("p{}{}", op_name(*op), bound)).unwrap_or_else(|e| run.fault(&format!("{}", e)))).collect();
+            let (rb, ab) = (dewey::tokenise(bound, LetterWeight::Rank), dewey::tokenise(bound, LetterWeight::AsciiLower));
+            for (len, group) in &by_len {
+                let mut buf = String::with_capacity(len + 8);
+                for v in group.iter().chain(group.iter().rev()) {
+                    buf.clear();
+                    buf.push_str("p-");
+                    buf.push_str(v);
+                    t.states += 1;
+                    t.transitions += 1;
+                    t.evals += 4;
+                    t.validated += 4;
+                    calls += 1;
+                    match guard(|| [pats[0].matches(&buf), pats[1].matches(&buf), pats[2].matches(&buf), pats[3].matches(&buf)]) {
+                        Ok(got) => judge4(&run, &mut t, v, bound, got, &dewey::tokenise(v, LetterWeight::Rank), &rb, &dewey::tokenise(v, LetterWeight::AsciiLower), &ab),
+                        Err(m) => t.violation(Violation::new("cmp", cmp_case(v, bound, Op::Gt), json!("a verdict"), json!(format!("panic: {}", m)), "matching panicked")),
+                    }
+                }
+            }
+        }
+        run.bound(format!("(j) buffer reuse: {} matches of names written one after the other into one buffer (grouped by length), 3 bounds x 4 operators compiled once", calls));
+        run.merge(t);
+    }
     // (h) long common prefixes: two versions that agree on 15..100 leading bytes and then end in
     // different short tails (every single token, and modifier / letter / number pairs that share
     // leading letters), through the four operators and through best_match
